@@ -1087,8 +1087,110 @@ def _positional_calls(tree, extern=None):
     return R().visit(tree)
 
 
+# N23: one spelling of string interpolation ----------------------------------------------------------------------------------------
+def _fstring_of_format(c: ast.Call):
+    """'a{}b{!r}'.format(x, y) -> f"a{x}b{y!r}"  (constant template; auto-numbered, indexed or keyword fields without nested fields)"""
+    import string
+    if not (isinstance(c.func, ast.Attribute) and c.func.attr == "format" and isinstance(c.func.value, ast.Constant) and isinstance(c.func.value.value, str)):
+        return None
+    if any(isinstance(a, ast.Starred) for a in c.args) or any(k.arg is None for k in c.keywords):
+        return None
+    try:
+        parts = list(string.Formatter().parse(c.func.value.value))
+    except ValueError:
+        return None
+    values, auto = [], 0
+    kws = {k.arg: k.value for k in c.keywords}
+    for lit, field, spec, conv in parts:
+        if lit:
+            values.append(ast.Constant(value=lit))
+        if field is None:
+            continue
+        if spec and ("{" in spec):
+            return None
+        if field == "":
+            if auto >= len(c.args):
+                return None
+            expr = c.args[auto]
+            auto += 1
+        elif field.isdigit():
+            if int(field) >= len(c.args):
+                return None
+            expr = c.args[int(field)]
+        elif field.isidentifier() and field in kws:
+            expr = kws[field]
+        else:
+            return None
+        values.append(ast.FormattedValue(value=expr, conversion={None: -1, "s": 115, "r": 114, "a": 97}[conv],
+                                         format_spec=ast.JoinedStr(values=[ast.Constant(value=spec)]) if spec else None))
+    return ast.copy_location(ast.JoinedStr(values=values), c)
+
+
+def _fstring_of_percent(b: ast.BinOp):
+    """'%s|%r' % (a, b) -> f"{a}|{b!r}"   (only %s / %r / %% and a literal tuple or a single non-tuple operand)"""
+    import re as _re
+    if not (isinstance(b.op, ast.Mod) and isinstance(b.left, ast.Constant) and isinstance(b.left.value, str)):
+        return None
+    tmpl = b.left.value
+    toks = _re.split(r"(%[sr%])", tmpl)
+    if any(t.startswith("%") and t not in ("%s", "%r", "%%") for t in _re.findall(r"%.?", tmpl)):
+        return None
+    n = sum(1 for t in toks if t in ("%s", "%r"))
+    if isinstance(b.right, ast.Tuple):
+        args = list(b.right.elts)
+    elif n == 1 and not isinstance(b.right, (ast.Dict, ast.Name, ast.Attribute, ast.Call, ast.Subscript)):
+        args = [b.right]
+    elif n == 1 and isinstance(b.right, (ast.Name, ast.Attribute, ast.Subscript)):
+        return None   # could be a tuple at run time
+    else:
+        return None
+    if len(args) != n or any(isinstance(a, ast.Starred) for a in args):
+        return None
+    values, i = [], 0
+    for t in toks:
+        if t == "%%":
+            values.append(ast.Constant(value="%"))
+        elif t in ("%s", "%r"):
+            values.append(ast.FormattedValue(value=args[i], conversion=115 if t == "%s" else 114, format_spec=None))
+            i += 1
+        elif t:
+            values.append(ast.Constant(value=t))
+    return ast.copy_location(ast.JoinedStr(values=values), b)
+
+
+class _Interpolation(ast.NodeTransformer):
+    def visit_Call(self, c):
+        self.generic_visit(c)
+        j = _fstring_of_format(c)
+        return self._canon(j) if j is not None else c
+
+    def visit_BinOp(self, b):
+        self.generic_visit(b)
+        j = _fstring_of_percent(b)
+        return self._canon(j) if j is not None else b
+
+    def visit_JoinedStr(self, n):
+        self.generic_visit(n)
+        return self._canon(n)
+
+    @staticmethod
+    def _canon(n):
+        # adjacent literal pieces are one piece; `{x!s}` is `{x}` for the value's text
+        vals = []
+        for v in n.values:
+            if isinstance(v, ast.FormattedValue) and v.conversion == 115 and v.format_spec is None:
+                v = ast.copy_location(ast.FormattedValue(value=v.value, conversion=-1, format_spec=None), v)
+            if isinstance(v, ast.Constant) and vals and isinstance(vals[-1], ast.Constant):
+                vals[-1] = ast.copy_location(ast.Constant(value=vals[-1].value + v.value), vals[-1])
+            else:
+                vals.append(v)
+        n.values = vals
+        return n
+
+
 def normalise(tree: ast.AST, extern=None) -> ast.AST:
     tree = _canonical_imports(tree)
+    tree = _Interpolation().visit(tree)
     tree = _positional_calls(tree, extern)
     tree = Normalise().visit(tree)
     tree = _unroll_table_loops(tree)
